@@ -272,6 +272,30 @@ def _run_unit_once(mod, tier, do_canary, mutate, tag, stub):
     return ur, None
 
 
+def mutation_canaries(mod):
+    """thorough tier: every listed mutant of the extracted copy must fail an obligation of its item"""
+    out = []
+    futs = []
+    for n, (key, pat, rep) in enumerate(getattr(mod, 'MUTANTS', [])):
+        def mk(key=key, pat=pat, rep=rep):
+            state = dict(applied=0)
+            def mutate(k, text):
+                if k != key:
+                    return text
+                new, cnt = re.subn(pat, rep.replace('\\', '\\\\'), text, count=1)
+                state['applied'] += cnt
+                return new
+            return mutate, state
+        mutate, state = mk()
+        futs.append((key, pat, rep, state, _pool.submit(run_unit, mod, 'quick', False, mutate, '_mut%d' % n)))
+    for key, pat, rep, state, fut in futs:
+        ur = fut.result()
+        fails = [f for f in ur.failures if f['item'] == key]
+        out.append(dict(unit=mod.NAME, item=key, mutation='%s -> %s' % (pat, rep), applied=state['applied'] > 0,
+                        killed=bool(fails) or key in getattr(ur, 'stubbed', {}), by=(fails[0]['obligation'] if fails else (ur.reason or ur.stubbed.get(key) if hasattr(ur, 'stubbed') else ''))))
+    return out
+
+
 def load_json(path, default):
     try:
         return json.load(open(path))
@@ -476,6 +500,15 @@ def check_property(pid, tier='quick', seed=0):
                         kf_lines.append(line)
                 elif bounded_cex is None:
                     bounded_cex = dict(d, counterexample='unlisted finding %s: %s' % (kfj.get('known_finding'), kfj.get('first_input')))
+    canaries = []
+    if tier == 'thorough' and not violations:
+        for r in runs:
+            canaries += mutation_canaries(r.mod)
+        for c in canaries:
+            if not c['applied']:
+                undecided.append('mutation canary does not apply any more: %s %s' % (c['item'], c['mutation']))
+            elif not c['killed']:
+                undecided.append('mutation canary SURVIVED (contract too weak): %s %s' % (c['item'], c['mutation']))
     for l in kf_lines:
         print(l)
     # known findings leave their obligation undischarged by construction: count them out of both numbers
@@ -544,7 +577,7 @@ def check_property(pid, tier='quick', seed=0):
     else:
         n_obl_rep = n_obl
     write_evidence(pid, tier, seed, runs, n_obl_rep, n_dis, len(violations), kf_lines, undecided, time.time() - t0,
-                   extra=dict(obligations_total=n_obl, obligations_not_discharged=kf_obl, bounded=bounded, **(extra or {})))
+                   extra=dict(obligations_total=n_obl, obligations_not_discharged=kf_obl, bounded=bounded, mutation_canaries=canaries, **(extra or {})))
     if rc == 0:
         print('OK property=%s obligations=%d discharged=%d units=%s bounded=%s wall=%.1fs' % (pid, n_obl, n_dis, ','.join(names), ','.join('%s:%s' % (b['harness'], b['verdict']) for b in bounded) or '-', time.time() - t0))
     return rc
